@@ -356,3 +356,40 @@ PROPS["C14"] = dict(
     technique="explicit-state model checking on the real code (fork-snapshot state space exploration with canonical state hashing, model conformance checked on every transition)",
     assumptions=["fork() preserves the complete allocator state", "guarded hooks M4RI_VERIF_MMC_NBLOCKS / M4RI_VERIF_MZD_T_CACHE_MAX only change the two capacity constants"],
 )
+
+ICBWRAP = ["-Wl,--wrap=malloc,--wrap=calloc,--wrap=realloc,--wrap=free,--wrap=posix_memalign,--wrap=m4ri_die,--wrap=memset,--wrap=memcpy"]
+def _icb(cfg, body, args, group):
+    return Run(cfg, "icb/icb.c", args, group=group, kind="icb", common=[body, "harness/vx.c"], extra_cflags=["-I/verif/icb", "-DVX_ICB"], extra_ldflags=ICBWRAP, instrument_harness=False)
+
+def _c15_runs(tier):
+    cfg = C(thread_safe=1, instr="tsancb", opt="-O1")
+    if tier == "thorough":
+        return [_icb(cfg, "icb/h_c15.c", ["--bound=1", "--alloc-points=1"], "bound1-allocpoints"),
+                _icb(C(thread_safe=1, instr="tsancb", opt="-O1", sse2=0, **MIN), "icb/h_c15.c", ["--bound=2", "--alloc-points=0"], "bound2-static-points")]
+    return [_icb(cfg, "icb/h_c15.c", ["--bound=1", "--alloc-points=1"], "bound1-allocpoints")]
+
+PROPS["C15"] = dict(
+    level="model_checking", runs=_c15_runs, engine="ICB",
+    rule="thread-safe build (flags derived from configure.ac's --enable-thread-safe fragment); scenarios: ALL ordered pairs of a 14-entry operation menu (Strassen and M4RM products, cubic product, M4RI / PLUQ echelon forms, PLE, PLUQ, solve, kernel, transpose, TRSM, inversion, accumulate product, column permutation) on 2 logical threads, 21 triples on 3 threads, 16 threads, and init/window/free bursts, every thread creating, using and freeing its own matrices; scheduling points: every allocator call (malloc/posix_memalign/free; pairs a<=b in quick, all pairs and triples thorough), every write to static storage and every read of static storage written during the run, thread start/end; ALL schedules with at most 1 preemption are executed (iterative context bounding; unlimited non-preemptive switches for 2-3 threads, default schedule plus every single deviation for 16 threads); on every execution a vector-clock happens-before detector watches every load/store of library code (own __tsan_* callbacks, 4-byte granules, memset/memcpy included) and every thread's result digest is compared with the sequential run; states = nodes of the explored schedule tree, transitions = scheduling decisions executed, traces_validated_against_impl = executions (every schedule is executed on the real code)",
+    level_text="Stateless model checking of the real library under a deterministic coroutine scheduler: all interleavings of the scenario threads at the hooked points within the preemption bound are executed, each with a happens-before race detector over every instrumented memory access; since the thread-safe build has no synchronisation of its own, any conflicting pair of accesses is concurrent in every schedule, so race-freedom is decided on each single execution and the schedule enumeration decides result equality.",
+    level_note="Bounded: preemption bound 1 (2 without allocator points in thorough), menu operations on small shapes, sequentially consistent interleavings (justified by race-freedom). libc's allocator is trusted to be thread-safe; its internal synchronisation is not modelled (blocks are re-initialised in the shadow on allocation).",
+    technique="stateless model checking on the real code: preemption-bounded exhaustive schedule enumeration (ICB) over hooked scheduling points + vector-clock happens-before race detection on every execution",
+    assumptions=["gcc -fsanitize=thread instrumentation reports every load/store of library code to our callbacks", "coroutine scheduler owns all scheduling nondeterminism (one OS thread)"],
+)
+
+def _c16_runs(tier):
+    cfg = C(openmp=1, instr="tsancb", opt="-O1")
+    if tier == "thorough":
+        return [_icb(cfg, "icb/h_c16.c", ["--bound=1"], "bound1-all-teams"),
+                _icb(cfg, "icb/h_c16.c", ["--bound=2", "--teams=2-3"], "bound2-teams-2-3"),
+                _icb(C(openmp=1, instr="tsancb", opt="-O1", sse2=0, **MIN), "icb/h_c16.c", ["--bound=1", "--teams=2-5"], "bound1-min-cache")]
+    return [_icb(cfg, "icb/h_c16.c", ["--bound=1"], "bound1-quick-list")]
+
+PROPS["C16"] = dict(
+    level="model_checking", runs=_c16_runs, engine="ICB",
+    rule="OpenMP build (gcc -fopenmp, header cache off per configure.ac's fragment) linked against a mini-GOMP runtime implemented on the deterministic scheduler (GOMP_parallel, GOMP_parallel_sections, GOMP_sections_next, GOMP_critical_name_start/end, omp_get_num_threads/thread_num; nested regions get a team of 1 like libgomp's default); scenarios: mzd_mul_mp / mzd_addmul_mp on shapes with remainder strips not multiple of 128 and cutoffs 64/128, mzd_mul_m4rm / mzd_addmul_m4rm / mzd_mul / mzd_echelonize_m4ri on shapes with > 512 rows (static chunks spread over threads), for team sizes {1,2,3,4,5,8,16} (quick) / every size 1..16 (thorough); scheduling points: region fork (who runs first), every GOMP_sections_next (which thread gets which section), every critical(mmc) entry, writes to static storage outside critical sections, thread end / join; teams of 2-3: ALL schedules with at most 1 (thorough also 2) preemption(s); teams of 4-5: default schedule + every single deviation with ALL section-to-thread assignments; larger teams: default + every single deviation; on every execution: result == reference model (= sequential result), vector-clock happens-before race detection over every load/store (fork/join and critical release->acquire edges), deadlock detection; states = nodes of the explored schedule tree, transitions = scheduling decisions executed",
+    level_text="Stateless model checking of the OpenMP build: a replacement OpenMP runtime owns every scheduling decision, all schedules within the bound are executed on the real library code, and each execution is checked for data races (happens-before), deadlock and bit-identical results.",
+    level_note="libgomp itself is replaced, i.e. the real runtime's implementation of critical/barrier/sections is trusted, not checked. Bounded preemptions / deviations as stated; nested parallelism is serialised (team of 1).",
+    technique="stateless model checking on the real code: preemption/deviation-bounded exhaustive schedule enumeration over a mini-OpenMP runtime + vector-clock race detection on every execution",
+    assumptions=["gcc 12 outlines OpenMP regions to the 8 GOMP entry points implemented by icb/icb.c", "gcc -fsanitize=thread instrumentation reports every load/store of library code to our callbacks"],
+)
